@@ -255,13 +255,13 @@ def merged_init(run):
     plain1, plain2 = DictElem(DictFamily('p'), z3.IntVal(0)), DictElem(DictFamily('q'), z3.IntVal(0))
 
     def mk_md(fam):
-        m = M.MergedDict.__new__(M.MergedDict)
+        m = loader.bare_instance(M.MergedDict)
         m._dicts = DictList(fam)
         return m
     for label, args in (('plain', [plain1]), ('plain-plain', [plain1, plain2]), ('merged-plain', [mk_md(fams[0]), plain1]),
                         ('plain-merged', [plain1, mk_md(fams[0])]), ('merged-merged', [mk_md(fams[0]), mk_md(fams[1])]), ('none', [])):
         def body(args=args):
-            o = M.MergedDict.__new__(M.MergedDict)
+            o = loader.bare_instance(M.MergedDict)
             f(o, *args)
             return o
 
